@@ -125,7 +125,7 @@ def dtype_sweep(run, pid, words):
 
     run.native_runs += 1
     problems, sc = kalman.native_dtypes(run.seed)
-    mine = [p for p in problems if any(w in p for w in words) or "inputs: " in p and ":" in p.split("inputs: ", 1)[1][:40] and not any(k in p for k in ("predicted", "posterior"))]
+    mine = [p for p in problems if any(w in p for w in words) or p.startswith("constructing the filter") or "inputs: " in p and ":" in p.split("inputs: ", 1)[1][:40] and not any(k in p for k in ("predicted", "posterior"))]
     run.bounded.append({"what": "state / covariance / reading of dtype int64, float32 and int32 (from_data) through process_model and sensor_model of the real filter vs the exact oracle at the same values", "bound": "1 model x 3 dtypes", "failures": len(mine), "counted_as_proved": False})
     for p in mine[:1]:
         run.findings.append(Finding(f"{pid}.py.native_dtypes", "dtype", p, {"language": "python", "inputs": {"dtypes": True, "seed": run.seed}, "model_definition": sc.describe(), "oracle_verdict": mine[:4]}, True))
